@@ -1,4 +1,5 @@
 import Varpulis.Model.Sase
+import Varpulis.Lemmas.SaseKleene
 /-!
 # Lemmas for C01 / C02 over the step-level SASE model
 -/
@@ -2273,5 +2274,328 @@ theorem runFrom_bounded {p : Pat} {cfg : Cfg} : ∀ (evs : List Event) (s : Eng)
 theorem runAll_bounded (p : Pat) (cfg : Cfg) (evs : List Event) : RunsBounded cfg.maxRuns (runAll p cfg evs).1 := by
   unfold runAll
   exact runFrom_bounded evs Eng.init (by intro k; simp [Eng.init])
+
+section Enumeration
+open Varpulis.Zdd
+
+/-! ## the enumeration at completion (`expand`) -/
+
+/-- after `k` extensions the capture's handle is the complete diagram over `k` variables (a6's `full`) -/
+theorem kleeneHandle_eq_full (k : Nat) : kleeneHandle k = Varpulis.SaseK.full 0 k := by
+  unfold kleeneHandle
+  induction k with
+  | zero => rfl
+  | succ n ih =>
+    rw [List.range_succ, List.foldl_append, ih]
+    simpa using Varpulis.SaseK.pwo_full 0 n
+
+/-- an index set of the complete diagram selects a subsequence of the kept entries -/
+theorem pick_sublist (L : List Entry) : ∀ (n i : Nat), i + n = L.length → ∀ s ∈ Varpulis.SaseK.Spec.subsets i n,
+    (pickEntries L s).Sublist (L.drop i) := by
+  intro n
+  induction n with
+  | zero =>
+    intro i _ s hs
+    simp only [Varpulis.SaseK.Spec.subsets, List.mem_singleton] at hs
+    subst hs; simp [pickEntries]
+  | succ n ih =>
+    intro i hi s hs
+    have hlt : i < L.length := by omega
+    rw [List.drop_eq_getElem_cons hlt]
+    simp only [Varpulis.SaseK.Spec.subsets, List.mem_append, List.mem_map] at hs
+    rcases hs with hs | ⟨t, ht, rfl⟩
+    · exact (ih (i + 1) (by omega) s hs).cons _
+    · have := ih (i + 1) (by omega) t ht
+      unfold pickEntries at this ⊢
+      simp only [List.filterMap_cons, List.getElem?_eq_getElem hlt]
+      exact this.cons_cons _
+
+/-- **what `enumerate_with_filter` emits**: every match of `expand` keeps the run's stack and overlays the
+captures with a *non-empty subsequence of the enumerated step's group whose consecutive members satisfy the
+postponed filter* (the earlier member bound to the Kleene alias). -/
+theorem expand_spec {p : Pat} {cfg : Cfg} {m0 m : Match} {i : Nat} {s : Step} {q : Pred}
+    (hd : p.deferredStep = some (i, s, q)) (hm : m ∈ expand p cfg m0) :
+    ∃ es : List Entry, es.Sublist (groupOf p i m0.stack) ∧ es ≠ [] ∧
+      evalDeferred q ((es.head?.bind (·.alias)).or (extractRefAlias q)) m0.caps (es.map (·.ev)) = true ∧
+      m = ⟨m0.stack, es.foldl (fun c en => bindOpt en.alias en.ev c) m0.caps⟩ := by
+  unfold expand at hm
+  rw [hd] at hm
+  simp only [List.mem_map] at hm
+  obtain ⟨es, hes, rfl⟩ := hm
+  have hkept : ∃ kept : List Entry, kept.Sublist (groupOf p i m0.stack) ∧ es ∈ combosOf cfg q m0.caps kept := by
+    by_cases h0 : cfg.maxKleene = 0
+    · exact ⟨[], List.nil_sublist _, by simpa [h0] using hes⟩
+    · exact ⟨_, List.Sublist.refl _, by simpa [h0] using hes⟩
+  obtain ⟨kept, hsub, hes⟩ := hkept
+  unfold combosOf at hes
+  have hes' := List.mem_of_mem_take hes
+  rw [List.mem_filter, List.mem_map] at hes'
+  obtain ⟨⟨idxs, hidx, rfl⟩, hok⟩ := hes'
+  simp only [Bool.and_eq_true] at hok
+  refine ⟨pickEntries kept idxs, ?_, ?_, hok.2, rfl⟩
+  · rw [kleeneHandle_eq_full, Varpulis.SaseK.sets_full] at hidx
+    have := pick_sublist kept kept.length 0 (by simp) idxs hidx
+    simp only [List.drop_zero] at this
+    exact this.trans hsub
+  · intro hnil; rw [hnil] at hok; simp at hok
+
+/-- a pattern of the first fragment never enumerates -/
+theorem firstKleene_spec : ∀ (steps : List Step) (j i : Nat) (s : Step), firstKleene steps j = some (i, s) →
+    j ≤ i ∧ steps[i - j]? = some s ∧ s.kleene = true := by
+  intro steps
+  induction steps with
+  | nil => intro j i s h; simp [firstKleene] at h
+  | cons x xs ih =>
+    intro j i s h
+    unfold firstKleene at h
+    by_cases hk : x.kleene = true
+    · simp [hk] at h; obtain ⟨rfl, rfl⟩ := h; simp [hk]
+    · simp [hk] at h
+      obtain ⟨h1, h2, h3⟩ := ih (j + 1) i s h
+      refine ⟨by omega, ?_, h3⟩
+      have : i - j = (i - (j + 1)) + 1 := by omega
+      rw [this, List.getElem?_cons_succ]; exact h2
+
+theorem deferredStep_none_of_inFragment {p : Pat} (h : p.inFragment = true) : p.deferredStep = none := by
+  unfold Pat.deferredStep
+  cases hf : firstKleene p.steps 0 with
+  | none => rfl
+  | some is =>
+    obtain ⟨i, s⟩ := is
+    obtain ⟨_, h2, _⟩ := firstKleene_spec p.steps 0 i s hf
+    simp only [Nat.sub_zero] at h2
+    simp only []
+    cases hq : s.postponed with
+    | none => rfl
+    | some q =>
+      simp only []
+      by_cases hl : i + 1 < p.steps.length
+      · have := inFragment_postponed h h2 (by unfold Pat.isLast; simp; omega)
+        rw [this] at hq; cases hq
+      · simp [hl]
+
+theorem expand_none {p : Pat} (cfg : Cfg) (m : Match) (h : p.deferredStep = none) : expand p cfg m = [m] := by
+  unfold expand; rw [h]
+
+theorem runFromK_eq {p : Pat} {cfg : Cfg} (h : p.deferredStep = none) : ∀ (evs : List Event) (s : Eng),
+    runFromK p cfg s evs = runFrom p cfg s evs := by
+  intro evs
+  induction evs with
+  | nil => intro s; rfl
+  | cons e es ih =>
+    intro s
+    have hs : stepEngineK p cfg s e = stepEngine p cfg s e := by
+      unfold stepEngineK
+      have : (stepEngine p cfg s e).2.flatMap (expand p cfg) = (stepEngine p cfg s e).2 := by
+        rw [flatMap_congr_mem (g := fun m => [m]) (fun m _ => expand_none cfg m h)]
+        simp
+      rw [this]
+    unfold runFromK runFrom
+    rw [hs, ih]
+
+theorem matchesOfK_eq {p : Pat} {cfg : Cfg} {evs : List Event} (h : p.deferredStep = none) :
+    matchesOfK p cfg evs = matchesOf p cfg evs := by
+  unfold matchesOfK matchesOf runAll
+  rw [runFromK_eq h]
+
+theorem capsEquiv_refl (c : Caps) : capsEquiv c c = true := by
+  unfold capsEquiv; simp
+
+theorem genuineK_of_genuine {p : Pat} {evs : List Event} {m : Match} (hd : p.deferredStep = none)
+    (h : Genuine p evs m = true) : GenuineK p evs m = true := by
+  unfold GenuineK candidates
+  rw [hd]
+  unfold Genuine at h
+  simp only [Bool.and_eq_true] at h
+  obtain ⟨⟨⟨⟨h1, h2⟩, h3⟩, h4⟩, h5⟩ := h
+  have h5' : m.caps = capsOf m.stack := by simpa using h5
+  simp only [List.any_cons, List.any_nil, Bool.or_false, Bool.and_eq_true]
+  refine ⟨?_, by rw [h5']; exact capsEquiv_refl _⟩
+  unfold GenuineCore
+  simp only [Bool.and_eq_true]
+  exact ⟨⟨⟨h1, h2⟩, h3⟩, h4⟩
+
+/-! ## the engine never looks at a postponed filter of a non-last step -/
+
+/-- drop a postponed (self-referencing `all`) filter -/
+def Step.strip (s : Step) : Step := if s.postponed.isSome then { s with pred := none } else s
+
+/-- the pattern without its postponed filters -/
+def Pat.strip (p : Pat) : Pat := { p with steps := p.steps.map Step.strip }
+
+theorem strip_kleene (s : Step) : s.strip.kleene = s.kleene := by unfold Step.strip; split <;> rfl
+theorem strip_alias (s : Step) : s.strip.alias = s.alias := by unfold Step.strip; split <;> rfl
+theorem strip_ty (s : Step) : s.strip.ty = s.ty := by unfold Step.strip; split <;> rfl
+
+theorem strip_eager (s : Step) : s.strip.eager = s.eager := by
+  unfold Step.strip
+  by_cases h : s.postponed.isSome = true
+  · rw [if_pos h]
+    unfold Step.postponed at h
+    unfold Step.eager
+    cases hp : s.pred with
+    | none => rfl
+    | some q =>
+      rw [hp] at h
+      by_cases hc : (s.kleene && selfRef q s.alias) = true
+      · simp [hc]
+      · simp [hc] at h
+  · rw [if_neg h]
+
+theorem strip_postponed (s : Step) : s.strip.postponed = none := by
+  unfold Step.strip
+  by_cases h : s.postponed.isSome = true
+  · rw [if_pos h]; unfold Step.postponed; rfl
+  · rw [if_neg h]; simpa using h
+
+theorem strip_of_none {s : Step} (h : s.postponed = none) : s.strip = s := by
+  unfold Step.strip; simp [h]
+
+theorem matchesState_strip (s : Step) (e : Event) (c : Caps) : matchesState s.strip e c = matchesState s e c := by
+  unfold matchesState; rw [strip_ty, strip_eager]
+
+theorem isLast_strip (p : Pat) (i : Nat) : p.strip.isLast i = p.isLast i := by
+  unfold Pat.isLast Pat.strip; simp
+
+theorem get_strip (p : Pat) (i : Nat) : p.strip.steps[i]? = (p.steps[i]?).map Step.strip := by
+  unfold Pat.strip; simp
+
+/-- no postponed filter on the last step -/
+def Pat.lastPlain (p : Pat) : Prop := ∀ i s, p.steps[i]? = some s → p.isLast i = true → s.postponed = none
+
+theorem enterNext_strip (p : Pat) (cfg : Cfg) (r : Run) (nxt : Step) (e : Event) :
+    enterNext p.strip cfg r nxt.strip e = enterNext p cfg r nxt e := by
+  unfold enterNext
+  simp only [isLast_strip, strip_kleene, strip_alias]
+
+theorem advance_strip {p : Pat} (hl : p.lastPlain) (cfg : Cfg) (r : Run) (e : Event) :
+    advance p.strip cfg r e = advance p cfg r e := by
+  unfold advance
+  rw [get_strip]
+  cases hcur : p.steps[r.pos]? with
+  | none => rfl
+  | some cur =>
+    simp only [Option.map_some, isLast_strip, strip_kleene, matchesState_strip]
+    have hself : selfLoop p.strip cfg r cur.strip e = selfLoop p cfg r cur e := by
+      unfold selfLoop
+      simp only [isLast_strip, strip_alias]
+      by_cases hlast : p.isLast r.pos = true
+      · rw [strip_of_none (hl _ _ hcur hlast)]
+      · simp [hlast]
+    have htr : viaTransitions p.strip cfg r e = viaTransitions p cfg r e := by
+      unfold viaTransitions
+      rw [get_strip]
+      cases p.steps[r.pos + 1]? with
+      | none => rfl
+      | some nxt => simp only [Option.map_some, matchesState_strip, enterNext_strip]
+    have hep : viaEpsilon p.strip r e = viaEpsilon p r e := by
+      unfold viaEpsilon
+      rw [get_strip]
+      cases p.steps[r.pos + 1]? with
+      | none => simp [isLast_strip]
+      | some nxt => simp only [Option.map_some, matchesState_strip, isLast_strip, strip_kleene, strip_alias]
+    rw [hself, htr, hep]
+
+theorem tryStart_strip (p : Pat) (e : Event) : tryStart p.strip e = tryStart p e := by
+  unfold tryStart Pat.strip
+  cases p.steps with
+  | nil => rfl
+  | cons s0 rest => simp only [List.map_cons, matchesState_strip, strip_alias]
+
+theorem loop2_congr {p q : Pat} {cfg : Cfg} {e : Event} (h : ∀ r, advance p cfg r e = advance q cfg r e)
+    (done pending : List Run) (acc : List Match) :
+    loop2 p cfg e done pending acc = loop2 q cfg e done pending acc := by
+  fun_induction loop2 p cfg e done pending acc with
+  | case1 done acc => rw [loop2]
+  | case2 done r rest acc hinv ih => rw [loop2.eq_2]; simp [hinv, ih]
+  | case3 done r rest acc hinv r' hadv ih => rw [loop2.eq_2]; simp [hinv, ← h, hadv, ih]
+  | case4 done r rest acc hinv m hadv ih => rw [loop2.eq_2]; simp [hinv, ← h, hadv, ih]
+  | case5 done r rest acc hinv r' m hadv ih => rw [loop2.eq_2]; simp [hinv, ← h, hadv, ih]
+  | case6 done r rest acc hinv hadv ih => rw [loop2.eq_2]; simp [hinv, ← h, hadv, ih]
+
+theorem oneStep_strip (p : Pat) : p.strip.oneStep = p.oneStep := by
+  unfold Pat.oneStep
+  rw [isLast_strip]
+  unfold Pat.strip
+  cases p.steps with
+  | nil => rfl
+  | cons s0 rest => simp [strip_kleene]
+
+theorem stepEngine_strip {p : Pat} (hl : p.lastPlain) (cfg : Cfg) (s : Eng) (e : Event) :
+    stepEngine p.strip cfg s e = stepEngine p cfg s e := by
+  rw [stepEngine_eq, stepEngine_eq]
+  have hk : keyOf p.strip e = keyOf p e := rfl
+  have hm : markNeg p.strip e = markNeg p e := rfl
+  have hpr : ∀ runs, processRuns p.strip cfg e runs 0 [] = processRuns p cfg e runs 0 [] := by
+    intro runs
+    rw [processRuns_eq_loop2, processRuns_eq_loop2]
+    exact loop2_congr (fun r => advance_strip hl cfg r e) _ _ _
+  have hst : ∀ runs ms d, startRun p.strip cfg e runs ms d = startRun p cfg e runs ms d := by
+    intro runs ms d
+    unfold startRun
+    rw [tryStart_strip, oneStep_strip]
+  simp only [hk, hm, hpr, hst]
+
+theorem runFrom_strip {p : Pat} (hl : p.lastPlain) (cfg : Cfg) : ∀ (evs : List Event) (s : Eng),
+    runFrom p.strip cfg s evs = runFrom p cfg s evs := by
+  intro evs
+  induction evs with
+  | nil => intro s; rfl
+  | cons e es ih => intro s; unfold runFrom; rw [stepEngine_strip hl]; simp only [ih]
+
+/-- the engine emits the same run matches for `p` and for `p` without its postponed filters -/
+theorem matchesOf_strip {p : Pat} (hl : p.lastPlain) (cfg : Cfg) (evs : List Event) :
+    matchesOf p.strip cfg evs = matchesOf p cfg evs := by
+  unfold matchesOf runAll; rw [runFrom_strip hl]
+
+theorem strip_inFragment (p : Pat) : p.strip.inFragment = true := by
+  unfold Pat.inFragment Pat.strip
+  simp only [List.all_eq_true]
+  intro s hs
+  have := List.dropLast_subset _ hs
+  obtain ⟨s0, _, rfl⟩ := List.mem_map.mp this
+  simp [strip_postponed]
+
+theorem runFromK_spec (p : Pat) (cfg : Cfg) : ∀ (evs : List Event) (s : Eng),
+    (runFromK p cfg s evs).1 = (runFrom p cfg s evs).1 ∧
+    (runFromK p cfg s evs).2 = (runFrom p cfg s evs).2.map (fun x => (x.1, x.2.flatMap (expand p cfg))) := by
+  intro evs
+  induction evs with
+  | nil => intro s; exact ⟨rfl, rfl⟩
+  | cons e es ih =>
+    intro s
+    unfold runFromK runFrom
+    have h1 : (stepEngineK p cfg s e).1 = (stepEngine p cfg s e).1 := rfl
+    have h2 : (stepEngineK p cfg s e).2 = (stepEngine p cfg s e).2.flatMap (expand p cfg) := rfl
+    rw [h1, h2]
+    obtain ⟨i1, i2⟩ := ih (stepEngine p cfg s e).1
+    simp [i1, i2]
+
+/-- every match of the extended engine comes from a match of a completed run through `expand` -/
+theorem mem_matchesOfK {p : Pat} {cfg : Cfg} {evs : List Event} {m : Match} (h : m ∈ matchesOfK p cfg evs) :
+    ∃ m0 ∈ matchesOf p cfg evs, m ∈ expand p cfg m0 := by
+  unfold matchesOfK at h
+  rw [(runFromK_spec p cfg evs Eng.init).2] at h
+  simp only [List.map_map, List.mem_flatten, List.mem_map, Function.comp] at h
+  obtain ⟨l, ⟨x, hx, rfl⟩, hm⟩ := h
+  obtain ⟨m0, hm0, hmm⟩ := List.mem_flatMap.mp hm
+  refine ⟨m0, ?_, hmm⟩
+  unfold matchesOf runAll
+  exact List.mem_flatten.mpr ⟨x.2, List.mem_map.mpr ⟨x, hx, rfl⟩, hm0⟩
+
+theorem lastPlain_of_B {p : Pat} (h : p.lastPlainB = true) : p.lastPlain := by
+  intro i s hs hl
+  unfold Pat.lastPlainB at h
+  unfold Pat.isLast at hl
+  have hi := List.getElem?_eq_some_iff.mp hs
+  obtain ⟨hi, hx⟩ := hi
+  have hlast : p.steps.getLast? = some s := by
+    rw [List.getLast?_eq_getElem?]
+    have : p.steps.length - 1 = i := by simp at hl; omega
+    rw [this]; exact hs
+  rw [hlast] at h
+  simpa using h
+
+end Enumeration
 
 end Varpulis.Sase
